@@ -11,7 +11,7 @@ Theorem assigned_only_refuted :
     new_symbols [] [] [("do_return", map QSimple (referenced [FRead] chain))] = Some ([c], g) /\
     exists s, In s chain /\ In c (s_modified s).
 Proof.
-  exists [mkscope ["i"; "n"] ["do_return"; "i"] ["do_return"; "i"]], "do_return", ["do_return"].
+  exists [mkscope ["i"; "n"] ["do_return"; "i"] ["do_return"; "i"] []], "do_return", ["do_return"].
   split; [vm_compute; reflexivity|]. eexists; split; [left; reflexivity | simpl; auto].
 Qed.
 Print Assumptions assigned_only_refuted.
